@@ -117,6 +117,8 @@ struct Case {
     cfg: Cfg,
     map: bool,
     ops: Vec<Op>,
+    /// `has_headers(b)` calls made on the builder after its constructor (the last one decides)
+    calls: Vec<bool>,
     sched: Vec<String>,
 }
 
@@ -181,6 +183,14 @@ fn cell_parse(w: &str) -> Data {
 }
 
 impl Case {
+    /// the configuration the builder must end up with (the property as stated: the last header-mode call wins)
+    fn eff_cfg(&self) -> Cfg {
+        match self.calls.last() {
+            Some(true) => Cfg::All,
+            Some(false) => Cfg::None,
+            None => self.cfg.normalized(),
+        }
+    }
     /// the driver request without the `std` table (this is also the replay text)
     fn wire(&self) -> String {
         let rg = match self.dims {
@@ -208,6 +218,7 @@ impl Case {
                 s
             }
         };
+        let cfg = format!("{cfg}{}", self.calls.iter().map(|c| if *c { "+h1" } else { "+h0" }).collect::<String>());
         format!("de {rg} {cfg} {} {} {}", if self.map { "map" } else { "seq" }, ops_wire(&self.ops), self.sched.join(","))
     }
     fn parse(s: &str) -> Case {
@@ -220,7 +231,10 @@ impl Case {
             let d: Vec<u64> = hd.split(',').map(|x| x.parse().unwrap()).collect();
             (Some((d[0] as u32, d[1] as u32, d[2] as usize, d[3] as usize)), cs.split(',').map(cell_parse).collect())
         };
-        let cfg = match p[2] {
+        let mut cfg_parts = p[2].split('+');
+        let cfg_base = cfg_parts.next().unwrap();
+        let calls: Vec<bool> = cfg_parts.map(|c| c == "h1").collect();
+        let cfg = match cfg_base {
             "N" => Cfg::None,
             "A" => Cfg::All,
             "W-" => Cfg::Wdh(None),
@@ -230,7 +244,7 @@ impl Case {
             }
             c => Cfg::Custom(c.split('/').skip(1).map(ustr).collect()),
         };
-        Case { dims, cells, cfg, map: p[3] == "map", ops: ops_parse(p[4]), sched: p[5].split(',').map(|x| x.to_string()).collect() }
+        Case { dims, cells, cfg, calls, map: p[3] == "map", ops: ops_parse(p[4]), sched: p[5].split(',').map(|x| x.to_string()).collect() }
     }
     fn h(&self) -> usize {
         self.dims.map_or(0, |d| d.2)
@@ -519,6 +533,33 @@ fn run_impl(case: &Case, variant: u64) -> String {
         Err(_) => return "range-panic".into(),
     };
     setup_case(case, variant);
+    if !case.calls.is_empty() {
+        // a builder value configured by several calls: constructor, then has_headers(..) calls
+        let built = guarded(|| {
+            let mut b: RangeDeserializerBuilder<'static, &'static str> = match &case.cfg {
+                Cfg::None => {
+                    let mut b = RangeDeserializerBuilder::new();
+                    b.has_headers(false);
+                    b
+                }
+                Cfg::All => RangeDeserializerBuilder::new(),
+                Cfg::Wdh(_) => RangeDeserializerBuilder::with_deserialize_headers::<RecRow>(),
+                Cfg::Custom(names) => {
+                    let v: Vec<&'static str> = names.iter().map(|s| &*Box::leak(s.clone().into_boxed_str())).collect();
+                    RangeDeserializerBuilder::with_headers(Box::leak(v.into_boxed_slice()))
+                }
+            };
+            for c in &case.calls {
+                b.has_headers(*c);
+            }
+            if variant % 2 == 0 {
+                b.from_range::<Data, RecRow>(&range)
+            } else {
+                b.clone().from_range::<Data, RecRow>(&range)
+            }
+        });
+        return drive(built, &case.ops);
+    }
     let built = guarded(|| match &case.cfg {
         Cfg::None => RangeDeserializerBuilder::new().has_headers(false).from_range::<Data, RecRow>(&range),
         Cfg::All => match variant / 7 % 3 {
@@ -731,7 +772,7 @@ fn o_convert(d: &Data, t: &str, pos: (u32, u32)) -> String {
 
 /// header configuration resolved against the first row: Err(new fails) or (selected columns, header strings)
 fn o_resolve(case0: &Case) -> Result<(Vec<usize>, Option<Vec<String>>, usize), String> {
-    let case = &Case { cfg: case0.cfg.normalized(), ..case0.clone() };
+    let case = &Case { cfg: case0.eff_cfg(), calls: vec![], ..case0.clone() };
     let (h, w) = (case.h(), case.w());
     if case.cfg == Cfg::None {
         return Ok(((0..w).collect(), None, 0));
@@ -1016,6 +1057,11 @@ fn shrink(case: &Case, variant: u64, kind: &str, sig: &str, drv: &mut Driver) ->
             c.ops.remove(k);
             cands.push(c);
         }
+        for k in 0..cur.calls.len() {
+            let mut c = cur.clone();
+            c.calls.remove(k);
+            cands.push(c);
+        }
         for k in 0..cur.ops.len() {
             let simpler = match &cur.ops[k] {
                 Op::Skip(n) => Some(Op::Nth(*n)),
@@ -1124,7 +1170,7 @@ fn first_cell_error(case: &Case, cols: &[usize], j: usize) -> Option<String> {
 
 /// expectations for serde's own visitors, computed from the case description
 fn derive_family(case0: &Case, rep: &mut Report, text: &str) {
-    let case = &Case { cfg: case0.cfg.normalized(), ..case0.clone() };
+    let case = &Case { cfg: case0.eff_cfg(), calls: vec![], ..case0.clone() };
     let range = case.range();
     let resolved = o_resolve(case);
     let builder_err = resolved.as_ref().err().cloned();
@@ -1902,7 +1948,8 @@ fn gen_case(rng: &mut Rng) -> Case {
             cfg = Cfg::Wdh(None);
         }
     }
-    Case { dims, cells, cfg, map, ops, sched }
+    let calls: Vec<bool> = if rng.chance(1, 8) { (0..rng.range(1, 3)).map(|_| rng.chance(1, 2)).collect() } else { vec![] };
+    Case { dims, cells, cfg, calls, map, ops, sched }
 }
 
 /// wide ranges: 65..300 columns (and the boundary widths), header names from a small pool so that many
@@ -1953,9 +2000,85 @@ fn gen_wide_case(rng: &mut Rng) -> Case {
         dims: Some((*rng.pick(&origins), *rng.pick(&origins), h, w)),
         cells,
         cfg: if rng.chance(9, 10) { Cfg::Custom(sel) } else { Cfg::All },
+        calls: vec![],
         map: rng.chance(1, 2),
         ops: vec![Op::Next; h],
         sched: vec!["any".into()],
+    }
+}
+
+/// wide custom selections over sparse rows: 17..64 selected columns forming a contiguous span of the sheet's
+/// columns, taken in order / reversed / rotated / randomly permuted / with one column left out or repeated; rows are
+/// mostly `Empty` with long empty runs and a few values (`Int(1000*row+column)`), headers are unique (`c<j>`)
+fn gen_span_case(rng: &mut Rng) -> Case {
+    let w = rng.range(20, 100) as usize;
+    let h = rng.range(2, 4) as usize;
+    let len = rng.range(17, 64.min(w as u64)) as usize;
+    let lo = if rng.chance(1, 2) { 0 } else { rng.below((w - len) as u64 + 1) as usize };
+    let mut sel: Vec<usize> = (lo..lo + len).collect();
+    match rng.below(8) {
+        0 => {}
+        1 | 2 => sel.reverse(),
+        3 => {
+            let k = rng.range(1, len as u64 - 1) as usize;
+            sel.rotate_left(k)
+        }
+        4 | 5 => rng.shuffle(&mut sel),
+        6 => {
+            sel.reverse();
+            let k = rng.below(sel.len() as u64) as usize;
+            sel.remove(k); // a gap
+        }
+        _ => {
+            let k = rng.below(len as u64) as usize;
+            sel.swap(0, k)
+        }
+    }
+    let mut cells: Vec<Data> = (0..w).map(|j| Data::String(format!("c{j}"))).collect();
+    for i in 1..h {
+        // sparse row: values with probability p, then one or two long empty runs punched in
+        let p = *rng.pick(&[1u64, 2, 4, 10]);
+        let mut row: Vec<Data> = (0..w)
+            .map(|j| {
+                if rng.chance(p, 20) {
+                    if rng.chance(1, 12) {
+                        Data::Error(rng.pick(&KINDS).clone())
+                    } else {
+                        Data::Int(1000 * i as i64 + j as i64)
+                    }
+                } else {
+                    Data::Empty
+                }
+            })
+            .collect();
+        for _ in 0..rng.below(3) {
+            let a = rng.below(w as u64) as usize;
+            let b = (a + rng.range(16, 40) as usize).min(w);
+            for c in row[a..b].iter_mut() {
+                *c = Data::Empty;
+            }
+        }
+        cells.extend(row);
+    }
+    let names: Vec<String> = sel
+        .iter()
+        .map(|j| {
+            let n = format!("c{j}");
+            if rng.chance(1, 6) {
+                pad(rng, &n)
+            } else {
+                n
+            }
+        })
+        .collect();
+    Case {
+        dims: Some((*rng.pick(&[0u32, 5, 65535]), *rng.pick(&[0u32, 2, u32::MAX - 120]), h, w)),
+        cells,
+        cfg: Cfg::Custom(names),
+        calls: vec![],
+        map: rng.chance(5, 6),
+        ops: vec![Op::Next; h],
+        sched: vec![rng.pick(&["any", "option", "i64"]).to_string()],
     }
 }
 
@@ -1989,6 +2112,7 @@ fn gen_reuse_sequence(rng: &mut Rng) -> Vec<Case> {
         );
     }
     first.map = rng.chance(4, 5);
+    first.calls = vec![];
     first.ops = vec![Op::Next; first.h()];
     let mut seq = vec![first.clone()];
     for _ in 0..rng.range(1, 2) {
@@ -2012,6 +2136,9 @@ fn gen_reuse_sequence(rng: &mut Rng) -> Vec<Case> {
             c.cells.push(if rng.chance(1, 6) { Data::Empty } else { gen_cell(rng) });
         }
         c.ops = vec![Op::Next; h];
+        if !matches!(c.cfg, Cfg::Custom(_)) {
+            c.cfg = if rng.chance(1, 2) { Cfg::All } else { Cfg::None };
+        }
         seq.push(c);
     }
     seq
@@ -2040,6 +2167,8 @@ fn run_reuse_impl(seq: &[Case], variant: u64) -> Vec<String> {
             let mut b = RangeDeserializerBuilder::new();
             b.has_headers(*cfg == Cfg::All);
             for (i, c) in seq.iter().enumerate() {
+                // the builder is switched between the two header modes from range to range
+                b.has_headers(c.cfg == Cfg::All);
                 setup_case(c, variant);
                 out.push(drive(guarded(|| b.from_range::<Data, RecRow>(&ranges[i])), &c.ops));
             }
@@ -2271,7 +2400,7 @@ fn main() {
          methods x consumption history (either height+1 / 0-8 calls to next, or a random mixture of 1-7 steps out of next, nth(n), by_ref().skip(k).next(), by_ref().step_by(k).take(m), by_ref().take(m), by_ref().last(), by_ref().count(), size_hint only; n up to usize::MAX; on the model side nth is the model's nth (= n+1 next steps, theorem nth_eq_iterate_next) and the adaptors are mapped to the next/nth sequences std performs: skip(k).next() = nth(k), step_by(k) = nth(0) then nth(k-1), take/last/count = repeated next); a recording Deserialize impl observes the exact visit_seq/visit_map event stream (values seen before the first \
          failure + the error) and size_hint before/after every step; compared impl vs Lean model vs independent \
          oracle. Family derive: the same ranges through Vec<Data>, HashMap<String,Data>, (String,Option<f64>,bool) and a derived \
-         struct with Option fields (with_deserialize_headers) against an expectation computed from the description. Every 64th random case is a wide range (63..300 columns, header names from a pool of 2-8 names with random padding => many duplicates after trimming, custom selections naming them, data cell = 1000*row+column). Family reuse: ONE builder value (with_headers / new().has_headers / with_deserialize_headers::<Rec>, also a clone taken before first use) deserializes 2-3 ranges in sequence whose header rows are re-padded (equal after trimming), identical, permuted or different; every range is compared with model and oracle evaluated per range (the builder is pure configuration: the model has no builder state) and, for the derived struct, with a fresh builder. Family convert: \
+         struct with Option fields (with_deserialize_headers) against an expectation computed from the description. Every 64th random case is a wide range (63..300 columns, header names from a pool of 2-8 names with random padding => many duplicates after trimming, custom selections naming them, data cell = 1000*row+column). Three random cases in 64 select 17-64 columns forming a contiguous span of a 20-100 column sheet in sheet order / reversed / rotated / shuffled / with a gap, over sparse rows (values with probability 5-50 %, plus 0-2 empty runs of 16-40 cells), mostly through the map path. One case in 8 builds its builder by a call sequence: constructor (new / has_headers / with_headers / with_deserialize_headers) followed by 1-3 has_headers(b) calls (also on a clone); expected and model: the last header-mode call wins (builderCalls, theorem builder_last_call_wins). Family reuse: ONE builder value (switched between has_headers(true/false) from range to range) (with_headers / new().has_headers / with_deserialize_headers::<Rec>, also a clone taken before first use) deserializes 2-3 ranges in sequence whose header rows are re-padded (equal after trimming), identical, permuted or different; every range is compared with model and oracle evaluated per range (the builder is pure configuration: the model has no builder state) and, for the derived struct, with a fresh builder. Family convert: \
          every pool cell x every target, plus a directed stream of f32/f64 rounding midpoints (Int cells beyond 2^53 and decimal strings on / one unit next to the midpoint of adjacent f32 or f64 values; single correctly-rounded conversion expected: Rust `as f32`/`as f64` and str::parse::<f32|f64> in the oracle, intToF32/intToF64 round-to-nearest-even in the Lean model, string parsing through the model's Std parameter). Family data / visit: Data and Option<Data> as the target of every pool / random cell (model dataOfCell, optDataOfCell), and DataVisitor called directly with single visit_* calls incl. u64 above i64::MAX, f32, char, bytes, newtype (model dataVisitor). with_deserialize_headers::<R>() for the recording record type R presenting one of 4 field lists to deserialize_struct, or not a struct (1 random case in 10; model withDeserializeHeaders = Headers.custom of the fields). Family helpers: the four i64/f64 helpers also against the model (asI64OrNone … with DataConv.viewData; float text, atoi_simd and fast_float2 results passed as its Std parameter); the 12 deserialize_as_*_or_none/_or_string functions on pool and random cells (error cell => CellError at its position, else the accessor applied to the rebuilt Data). Non-trivial = a non-empty range with at least one data row; distinct by case text",
     );
     rep.notes.push("Rust std f64::to_string / str::parse::<f64|f32> are measured on the real std for the cells of each case and passed to the model as its `Std` parameter (theorems hold for every Std)".into());
@@ -2302,6 +2431,31 @@ fn main() {
         for c in corpus() {
             cases.push(Case::parse(c));
         }
+        // seeded C09-m9: 17 selected columns = the span 0..=16 REVERSED, 32-column sheet, the only value of the row in
+        // column 5 (columns 16..32 empty): the record must still carry c5
+        {
+            let w = 32usize;
+            let mut cells: Vec<Data> = (0..w).map(|j| Data::String(format!("c{j}"))).collect();
+            cells.extend((0..w).map(|j| if j == 5 { Data::Int(1005) } else { Data::Empty }));
+            for (map, rev) in [(true, true), (false, true), (true, false)] {
+                let mut sel: Vec<String> = (0..17).map(|j| format!("c{j}")).collect();
+                if rev {
+                    sel.reverse();
+                }
+                cases.push(Case { dims: Some((0, 0, 2, w)), cells: cells.clone(), cfg: Cfg::Custom(sel), calls: vec![], map, ops: vec![Op::Next; 2], sched: vec!["any".into()] });
+            }
+        }
+        // seeded C09-m12: builder call sequences (the last header-mode call wins)
+        for c in [
+            "de 0,0,2,1/I:1,I:1 N+h1 map 1 any",
+            "de 0,0,2,1/S:61,I:1 A+h0+h1 map 2 any",
+            "de 0,0,2,1/S:61,I:1 A+h1+h0 seq 3 any",
+            "de 0,0,2,2/S:61,S:62,I:1,I:2 C/62+h1 map 2 any",
+            "de 0,0,2,2/S:61,S:62,I:1,I:2 C/62+h0 map 3 any",
+            "de 0,0,2,2/S:61,S:62,I:1,I:2 W/61/62+h0+h1 map 2 any",
+        ] {
+            cases.push(Case::parse(c));
+        }
         // seeded C09-m7: 65 columns, "x" in column 3 and " x " in column 63; selecting "x" means column 3 (first match)
         for w in [64usize, 65] {
             let mut cells: Vec<Data> = (0..w).map(|j| Data::String(format!("u{j}"))).collect();
@@ -2313,6 +2467,7 @@ fn main() {
                     dims: Some((0, 0, 2, w)),
                     cells: cells.clone(),
                     cfg: Cfg::Custom(vec!["x".into(), " u5".into()]),
+                    calls: vec![],
                     map,
                     ops: vec![Op::Next; 2],
                     sched: vec!["any".into()],
@@ -2331,7 +2486,12 @@ fn main() {
             &cases[idx]
         } else {
             // every 64th random case is a wide one (65..300 columns, duplicated header names)
-            generated = if (idx - fixed) % 64 == 63 { gen_wide_case(&mut gen_rng) } else { gen_case(&mut gen_rng) };
+            generated = match (idx - fixed) % 64 {
+                63 => gen_wide_case(&mut gen_rng),
+                // wide selections that are permutations of a contiguous span, over sparse rows
+                15 | 31 | 47 => gen_span_case(&mut gen_rng),
+                _ => gen_case(&mut gen_rng),
+            };
             &generated
         };
         let text = case.wire();
